@@ -92,6 +92,10 @@ def task_frame(f):
     return f.sum()
 
 
+def task_frame_items(label, f):
+    return task_frame(f)
+
+
 IFACES = ('s_element', 's_element_items', 's_group', 's_window', 'f_array0', 'f_array1', 'f_array_items1', 'f_series1', 'f_series_items0',
           'f_tuple1', 'f_tuple_items1', 'f_group', 'f_group_items', 'f_window', 'f_window_items', 'f_element')
 
@@ -105,14 +109,14 @@ def cases(draw, processes_share=0.12):
     n = draw(st.sampled_from([5, 3, 7, 4, 2, 6, 8, 1]))
     ch = {'workers': draw(st.sampled_from([3, 2, 1, 4, 7, 8, 5, 6])), 'chunksize': draw(st.sampled_from([c for c in (2, 1, 3, n, n + 1, 4) if c <= n + 1])),
           'fail': draw(st.one_of(st.none(), st.none(), st.integers(0, n - 1))), 'step_ms': draw(st.sampled_from([2, 3, 4])),
-          'batch_op': draw(st.sampled_from(['apply', 'sum', 'iloc', 'apply_items'])), 'fmt': draw(st.sampled_from(['zip_pickle', 'zip_csv']))}
+          'batch_op': draw(st.sampled_from(['apply', 'apply_except', 'apply_items', 'sum', 'apply_items_except', 'iloc'])), 'fmt': draw(st.sampled_from(['zip_pickle', 'zip_csv']))}
     return dict({'what': what, 'iface': iface, 'n': n, 'perm': draw(st.permutations(list(range(n)))), 'threads': use_threads}, **ch)
 
 
-def _set_schedule(case):
+def _set_schedule(case, mult=1):
     DELAYS.clear()
     for pos, i in enumerate(case['perm']):
-        DELAYS[i] = pos * case['step_ms'] / 1000.0
+        DELAYS[i] = pos * case['step_ms'] * mult / 1000.0
     FAIL_ID[0] = case['fail']
     del DONE[:]
 
@@ -121,6 +125,20 @@ def _clear_schedule():
     DELAYS.clear()
     FAIL_ID[0] = None
     del DONE[:]
+
+
+def _scheduled(case, run, seq):
+    """Run the parallel form under the case's completion schedule.  When a recorded failure is being reproduced
+    (VERIF_REPRO, set by the harness) the schedule is retried with wider spacing: a loaded machine can blur millisecond
+    delays, and any schedule under which the parallel form differs from the sequential one is a violation."""
+    par, achieved = None, []
+    for mult in ((1, 8, 40) if os.environ.get('VERIF_REPRO') else (1,)):
+        _set_schedule(case, mult)
+        par = lib(run)
+        achieved = list(DONE)
+        if isinstance(par, Raised) != isinstance(seq, Raised) or (not isinstance(par, Raised) and _obs(par) != _obs(seq)):
+            break
+    return par, achieved
 
 
 def _iter_node(case):
@@ -158,31 +176,34 @@ def check(case):
             _clear_schedule()
             FAIL_ID[0] = case['fail']
             seq = lib(lambda: _iter_node(case).apply(task))
-            _set_schedule(case)
-            par = lib(lambda: _iter_node(case).apply_pool(task, max_workers=case['workers'], chunksize=case['chunksize'], use_threads=case['threads']))
-            achieved = list(DONE)
+            par, achieved = _scheduled(case, lambda: _iter_node(case).apply_pool(task, max_workers=case['workers'], chunksize=case['chunksize'], use_threads=case['threads']), seq)
             return _compare(case, seq, par, achieved, classes, 'apply_pool(%s, workers=%d, chunksize=%d, threads=%s)' % (case['iface'], case['workers'], case['chunksize'], case['threads']))
         if what == 'batch':
             frames = [sf.Frame(np.array([[i * 100 + 1, i * 100 + 2], [3, 4]]), columns=('a', 'b'), name='f%d' % i) for i in range(n)]
             op = case['batch_op']
 
             def run(workers):
-                b = sf.Batch.from_frames(frames, max_workers=workers, use_threads=case['threads'], chunksize=case['chunksize']) if workers else sf.Batch.from_frames(frames)
+                # (the *_except forms document chunksize 1 only)
+                cs = 1 if op.endswith('_except') else case['chunksize']
+                b = sf.Batch.from_frames(frames, max_workers=workers, use_threads=case['threads'], chunksize=cs) if workers else sf.Batch.from_frames(frames)
                 if op == 'apply':
                     return b.apply(task_frame).to_frame()
                 if op == 'apply_items':
-                    return dict((k, repr(v.values.tolist())) for k, v in b.apply(task_frame).items())
+                    # pairs in yielded order (the order of the labels is part of the claim)
+                    return [(k, repr(v.values.tolist())) for k, v in b.apply_items(task_frame_items).items()]
+                if op == 'apply_except':
+                    return [(k, repr(v.values.tolist())) for k, v in b.apply_except(task_frame, ValueError).items()]
+                if op == 'apply_items_except':
+                    return [(k, repr(v.values.tolist())) for k, v in b.apply_items_except(task_frame_items, ValueError).items()]
                 if op == 'sum':
                     return b.sum().to_frame()
                 return b.iloc[:, 0].to_frame()
             _clear_schedule()
             FAIL_ID[0] = case['fail'] if op.startswith('apply') else None
             seq = lib(lambda: run(None))
-            _set_schedule(case)
             if not op.startswith('apply'):
-                FAIL_ID[0] = None
-            par = lib(lambda: run(case['workers']))
-            achieved = list(DONE)
+                case = dict(case, fail=None)
+            par, achieved = _scheduled(case, lambda: run(case['workers']), seq)
             classes.append('batch:' + op)
             return _compare(case, seq, par, achieved, classes, 'Batch(max_workers=%d, chunksize=%d, threads=%s).%s' % (case['workers'], case['chunksize'], case['threads'], op))
         # store
